@@ -65,7 +65,7 @@ def run(rep, tier, props):
             if res['exports_seen'] > len(recs):
                 rep.exhaustive = False
             for k, r in enumerate(recs):
-                jobs.append(dict(consts=c, rec=r, labels=('int', 'str', 'intperm')[k % 3]))
+                jobs.append(dict(consts=c, rec=r, labels=('int', 'str', 'intperm')[k % 3], tidx=k))
     results = core.pmap('harness.replay_partition', 'replay', jobs, chunksize=16)
     bad = core.machinery_failures(results)
     if bad:
@@ -89,6 +89,9 @@ def run(rep, tier, props):
     rep.extra['partition_replays'] = len(jobs)
     rep.extra['partition_replays_solved'] = solved
     rep.extra['partition_transcription_drift'] = ndrift
+    rep.extra['adaptive_times_random_rejected'] = sum(1 for r in results for n in r.get('notes', []) if n == 'product-rejected')
+    if rep.extra['adaptive_times_random_rejected'] == 0:
+        raise tlc.MachineryError('Partition: the adaptive x random rejection was never exercised')
     for job in jobs[:3]:
         rep.sample(dict(suite='Partition', history=job['rec']['hist'], expected_event_lists=job['rec']['ea'],
                         expected_NS_times_optimum=job['rec']['objNS'], labels=job['labels']))
